@@ -59,6 +59,7 @@ fn main() {
             "--replay" => cfg.replay = Some(v),
             "--tmp" => cfg.tmpdir = v,
             "--scale" => cfg.scale = v.parse().unwrap_or(1),
+            "--nvals" => NVALS_OVERRIDE.store(v.parse().unwrap_or(0), std::sync::atomic::Ordering::Relaxed),
             _ => {
                 eprintln!("unknown argument {}", a);
                 std::process::exit(64);
